@@ -229,4 +229,96 @@ theorem U_postHint_nonTag (cfg : Cfg) : X_postHint_nonTag cfg := by
   rw [← hh] at hpost
   exact ⟨fun a ha => invX_eqT hI hb hsg (hpost.1 a ha), hpost.2⟩
 
+/-! ## the end-tag token up to `EqT` -/
+
+theorem EqT.symm {a b : St} (h : EqT a b) : EqT b a :=
+  ⟨h.disp.symm, h.vm.symm, h.descs.symm, h.pending.symm, h.payloads.symm, h.ord.symm, h.fault.symm, fun x => (h.inv x).symm⟩
+
+theorem runEndTagUser_eqT (src : Range) (subs : List (HId × Nat)) (user : List (List EndTagOp)) (s : St) (t : EndTag) :
+    EqT s (runEndTagUser src subs user s t).1 := by
+  induction user generalizing subs s t with
+  | nil => cases subs <;> exact EqT.refl s
+  | cons ops user ih =>
+    cases subs with
+    | nil => simp only [runEndTagUser]; exact ih _ _ _
+    | cons sub subs =>
+      simp only [runEndTagUser]
+      exact (show EqT s { s with log := ⟨.endTag sub.1 sub.2, src, seeEndTag t⟩ :: s.log } from
+        ⟨rfl, rfl, rfl, rfl, rfl, rfl, rfl, fun _ => rfl⟩).trans (ih subs _ _)
+
+theorem runEndTagHandler_eqT (src : Range) (subs : List (HId × Nat)) (h : EndTagHandler) (s : St) (t : EndTag) :
+    EqT s (runEndTagHandler src subs h s t).1 := by
+  unfold runEndTagHandler
+  exact runEndTagUser_eqT _ _ _ _ _
+
+theorem runEndTagHandlers_congr (src : Range) (hs : List EndTagH) (s1 s2 : St) (t : EndTag) (h : EqT s1 s2) :
+    (runEndTagHandlers src hs s1 t = none ∧ runEndTagHandlers src hs s2 t = none) ∨
+    ∃ r1 r2, runEndTagHandlers src hs s1 t = some r1 ∧ runEndTagHandlers src hs s2 t = some r2 ∧ EqT r1.1 r2.1 ∧ r1.2 = r2.2 := by
+  induction hs generalizing s1 s2 t with
+  | nil => exact Or.inr ⟨(s1, t), (s2, t), rfl, rfl, h, rfl⟩
+  | cons hd hs ih =>
+    simp only [runEndTagHandlers]
+    rw [h.payloads]
+    cases s1.payloads.find? (fun p => p.ord == hd.ord) with
+    | none => exact Or.inl ⟨rfl, rfl⟩
+    | some p =>
+      dsimp only
+      have e1 := runEndTagHandler_eqT src hd.subs p.handler s1 t
+      have e2 := runEndTagHandler_eqT src hd.subs p.handler s2 t
+      have et : (runEndTagHandler src hd.subs p.handler s2 t).2 = (runEndTagHandler src hd.subs p.handler s1 t).2 := by
+        rw [Full_endTagHandler_faithful, Full_endTagHandler_faithful]
+      rw [et]
+      exact ih _ _ _ (e1.symm.trans (h.trans e2))
+
+/-- **`tokEndTag` respects `EqT`** -/
+theorem tokEndTag_congr (s1 s2 : St) (h : EqT s1 s2) (name raw : Bytes) (src : Range) :
+    (tokEndTag s2 name raw src).2.err = (tokEndTag s1 name raw src).2.err ∧
+    EqT (tokEndTag s1 name raw src).1 (tokEndTag s2 name raw src).1 := by
+  unfold tokEndTag
+  rw [h.disp]
+  cases s1.disp.endTag.doForEachActiveAndRemoveTail with
+  | error p => exact ⟨rfl, h⟩
+  | ok r =>
+    obtain ⟨et, hs⟩ := r
+    dsimp only
+    have h' : EqT { s1 with disp := { s1.disp with endTag := et } } { s2 with disp := { s1.disp with endTag := et } } :=
+      ⟨rfl, h.vm, h.descs, h.pending, h.payloads, h.ord, h.fault, h.inv⟩
+    rcases runEndTagHandlers_congr src hs _ _ ({ name := name, raw := raw } : EndTag) h' with ⟨a, b⟩ | ⟨r1, r2, a, b, c, d⟩
+    · rw [a, b]; exact ⟨rfl, h'⟩
+    · rw [a, b]
+      dsimp only
+      refine ⟨rfl, ⟨c.disp, c.vm, c.descs, c.pending, ?_, c.ord, c.fault, c.inv⟩⟩
+      show r2.1.payloads.filter _ = r1.1.payloads.filter _
+      rw [c.payloads]
+
+/-- the flag `NEXT_END_TAG` of `handle_end_tag` is "the end-tag handler vector has an active entry" -/
+theorem endTag_flag_active (s : St) (ln : LocalName) :
+    (endTag s ln).2.nextEndTag = (endTag s ln).1.disp.endTag.hasActive := by
+  rw [(Full_flags_returned s).2.2 ln]
+  rfl
+
+/-- `tokEndTag` with no active end-tag handler changes nothing but the log -/
+theorem tokEndTag_inactive (s : St) (hw : VecWf s.disp.endTag) (hna : s.disp.endTag.hasActive = false)
+    (name raw : Bytes) (src : Range) :
+    (tokEndTag s name raw src).2.err = none ∧ EqT s (tokEndTag s name raw src).1 := by
+  have huc : s.disp.endTag.userCount = 0 := by
+    unfold HandlerVec.hasActive at hna
+    simpa using hna
+  have hnone : s.disp.endTag.items.findIdx? (fun it => decide (0 < it.userCount)) = none := by
+    rw [List.findIdx?_eq_none_iff]
+    intro it hit
+    have hs : (s.disp.endTag.items.map (·.userCount)).sum = 0 := by rw [← hw]; exact huc
+    have := LolHtml.Lemmas.Scope.all_zero_of_sum_zero _ hs it.userCount (List.mem_map.2 ⟨it, hit, rfl⟩)
+    simp [this]
+  have hrt : s.disp.endTag.doForEachActiveAndRemoveTail = .ok (s.disp.endTag, []) := by
+    unfold HandlerVec.doForEachActiveAndRemoveTail
+    rw [hnone]
+    simp only [huc, if_true]
+  unfold tokEndTag
+  rw [hrt]
+  dsimp only [runEndTagHandlers]
+  refine ⟨rfl, ⟨rfl, rfl, rfl, rfl, ?_, rfl, rfl, fun _ => rfl⟩⟩
+  show s.payloads.filter _ = s.payloads
+  simp
+
 end LolHtml.Thm.Full
